@@ -112,6 +112,78 @@ example : Nsq.Proofs.InFlight.NoDupPush (InFlight.initSt []) zombieSchedule := b
     InFlight.okH, InFlight.push, InFlight.up, InFlight.dropCont]
 
 
+/-! ### Empty racing an answer in progress (audit B17) -/
+
+/-- the object a parked continuation holds -/
+def contObj : InFlight.Cont → List Nat
+  | .finAfterPop o | .reqAfterPop o _ | .reqAfterRemove o _ | .touchAfterPop o | .touchAfterRemove o
+  | .touchAfterMapPush o | .inflightAfterMapPush o | .scanAfterPQPop o | .deferAfterMapPush o | .dscanAfterPQPop o => [o]
+  | .emptyAfterInflightReset | .emptyAfterInitPQ => []
+
+/-- everything the channel is responsible for: queued, in flight, deferred, or in the hands of an operation in progress -/
+def heldBy (s : InFlight.St) : List Nat := s.map ++ s.queued ++ s.dmap ++ (s.conts.map contObj).flatten
+
+def noPut (l : List InFlight.Step) : Bool := l.all (fun a => match a with | .put _ => false | _ => true)
+
+/-- objects held when `Empty` begins (after `pre`) that are in flight again after `Empty` (all three critical
+sections) and the continuation `post`; `none` = the schedule is not executable -/
+def survivors (pre post : List InFlight.Step) : Option (List Nat) :=
+  match InFlight.run true { InFlight.initSt [] with scanAtomic := true } pre with
+  | InFlight.Res.ok s1 =>
+    match InFlight.run true s1 ([.emptyResetInflight, .emptyResetDeferred, .emptyRest] ++ post) with
+    | InFlight.Res.ok s2 => some ((heldBy s1).filter (fun o => decide (o ∈ s2.map)))
+    | _ => none
+  | _ => none
+
+/-- the claim "nothing the channel held when `Empty` began is delivered after `Empty` has finished" (unless it is
+published again), at micro granularity, for the patched code -/
+def EmptyDiscardsHeldFull : Prop :=
+  ∀ (pre post : List InFlight.Step), noPut post = true → survivors pre post = none ∨ survivors pre post = some []
+
+/-- message 1 is in flight; REQ 0 has taken it out of the in-flight map (`chan.req.afterPop`) when `Empty` runs —
+all three of its critical sections; REQ then puts the message back on the (emptied) queue and it is delivered
+again.  No sequential order of REQ and Empty explains "REQ answered OK and the message delivered after Empty".
+`Channel.Empty` takes the channel's RWMutex, REQ/TOUCH do not (they hold `exitMutex.RLock` since F18, which Empty
+does not take).  Replayed on the real code: `empty_races_req_survives`. -/
+def emptySurvivorSchedule : List InFlight.Step :=
+  [.reqPop 1 1 0, .emptyResetInflight, .emptyResetDeferred, .emptyRest, .reqRemove 1, .reqPut 1,
+   .startMapPush 2 1 20, .startPQPush 1]
+
+theorem empty_survivor_redelivered :
+    (match InFlight.run true { InFlight.initSt [] with scanAtomic := true }
+        ([.put 1, .startMapPush 1 1 10, .startPQPush 1] ++ emptySurvivorSchedule) with
+     | InFlight.Res.ok s => s.conts.isEmpty && decide (s.map = [1]) && decide (s.h.pq = [1]) && s.queued.isEmpty
+     | _ => false) = true := by decide
+
+theorem empty_discards_held_full_false : ¬ EmptyDiscardsHeldFull := by
+  intro h
+  have := h [.put 1, .startMapPush 1 1 10, .startPQPush 1, .reqPop 1 1 0]
+    [.reqRemove 1, .reqPut 1, .startMapPush 2 1 20, .startPQPush 1] (by decide)
+  revert this
+  decide
+
+/-- what does hold (`Props.C08.empty_chan_snapshot` in the atomic model; here per critical section): the three
+sections of `Empty` leave map, heap, deferred structures and queue empty — what survives is only what an operation
+in progress held outside every container -/
+theorem empty_sections_clear (s s1 s2 s3 : InFlight.St)
+    (h1 : InFlight.step true s .emptyResetInflight = InFlight.Res.ok s1)
+    (h2 : InFlight.step true s1 .emptyResetDeferred = InFlight.Res.ok s2)
+    (h3 : InFlight.step true s2 .emptyRest = InFlight.Res.ok s3) :
+    s3.map = [] ∧ s3.h.pq = [] ∧ s3.dmap = [] ∧ s3.dpq = [] ∧ s3.queued = [] := by
+  simp only [InFlight.step] at h1 h2 h3
+  split at h1
+  · cases h1
+  · cases h1
+    split at h2
+    · cases h2
+      split at h3
+      · cases h3
+        exact ⟨rfl, rfl, rfl, rfl, rfl⟩
+      · cases h3
+    · cases h2
+
+example : survivors [.put 1, .startMapPush 1 1 10, .startPQPush 1] [.scanPeek 50] = some [] := by decide
+
 /-! ### shape of the timeout scan (`St.scanAtomic`, tie `scan_shape_known`) -/
 
 /-- with heap pop and map pop in **two** critical sections a REQ plus a redelivery of the same message
